@@ -302,8 +302,8 @@ def build_jobs(run, recl_default):
             stage=1, threads=8, populated_by={k: pop2[k] for k in ("label", "ops", "threads", "imports", "cold", "cache")})
     # CalTRACK hourly: fresh with 1 and with 8 threads, and after fits of other families
     # (quick: 2 threads instead of 8 -- a LAPACK-heavy fit with 8 spinning BLAS threads on a shared machine takes minutes)
-    # hash salts are chosen so that the two known dependences of this model show separately: same salt / other pool size
-    # (C03-K1), same pool size / other salt (C03-K2), same both after other fits (must be identical)
+    # hash salts are chosen so that a dependence on the pool size (known: C03-K1) and one on the hash salt (C03-K2, fixed in
+    # /repo 15304f59) show separately: same salt / other pool size, same pool size / other salt, same both after other fits
     for ct in CT:
         job("caltrack-fresh", [ct], threads=1, hashseed="0")
         job("caltrack-threads", [ct], threads=run.n(2, 8), hashseed="0")
@@ -395,7 +395,7 @@ def attribute(base, other):
     if same_thr and not same_salt:
         return "hash-salt"
     if not same_thr and not same_salt:
-        return "blas-threads+hash-salt"
+        return "blas-threads+hash-salt"      # refined by classify_difference when the salt can be shown innocent
     return "context:" + oj["label"]
 
 
@@ -408,9 +408,15 @@ def classify_difference(obs):
     key = lambda x: (x[1]["threads"], str(x[1].get("hashseed") or "0") != "0", x[0], x[2])
     base = min(obs, key=key)
     out = {}
+    salt = lambda j: str(j.get("hashseed") or "0")
     for o in sorted(obs, key=key):
         if o[3] != base[3]:
-            out.setdefault(attribute(base, o), (base, o))
+            between = attribute(base, o)
+            if between == "blas-threads+hash-salt":
+                # the salt is innocent when some execution with the base's pool size and a non-base salt equals the base
+                if any(x[3] == base[3] and x[1]["threads"] == base[1]["threads"] and salt(x[1]) != salt(base[1]) for x in obs):
+                    between = "blas-threads"
+            out.setdefault(between, (base, o))
     return [(k, v[0], v[1]) for k, v in out.items()]
 
 
